@@ -1,7 +1,7 @@
-CONSTANT P = 17
+CONSTANT P = 13
 CONSTANT N = 2
 CONSTANT MUT = "none"
-CONSTANT DIDS = {1, 2, 5, 6}
+CONSTANT DIDS = {1, 2, 6}
 INIT Init
 NEXT Next
 INVARIANT Theorem
